@@ -311,6 +311,22 @@ def array_count_fold_rule(repo: Repo, rep: Report, rid: str) -> None:
               f"BaseArray._write for {bad[0][0] if bad else ''}: {bad[0][1] if bad else ''}, expected {bad[0][2] if bad else ''}", wr.loc())
 
 
+def array_size_text_fold_rule(repo: Repo, rep: Report, rid: str) -> None:
+    rep.rule(rid, "array size text at definition time, folded over 15 (size text, earlier fields, constants) cases: a size that names an earlier field - as a "
+                  "whole token, not as a substring of a literal or of another name - stays an expression also when a constant of that name exists; any other "
+                  "size the evaluator can compute becomes that number under C literal rules (010 is 8); the rest stays an expression")
+    from ..folds import fold_array_count
+
+    fi = repo.func("parser.py", "Parser._array_count")
+    fold = fold_array_count(repo)
+    if fold is None:
+        rep.ok(rid, f"{fi.key}:fold", "not foldable with the evaluator's whitelist: the structural rules on the array size decide", fi.loc(), nontrivial=False)
+        return
+    bad = fold["bad"]
+    rep.check(not bad, rid, f"{fi.key}:fold", f"{fold['cases']} cases agree with the reference",
+              (f"array size '{bad[0][0]}' with earlier fields {bad[0][1]} and constants {bad[0][2]} becomes {bad[0][3]!r}, expected {bad[0][4]!r}") if bad else "", fi.loc())
+
+
 def run(repo: Repo, rep: Report, tier: str) -> None:
     from .compiled import compiled_fold_rule
 
@@ -340,3 +356,4 @@ def run(repo: Repo, rep: Report, tier: str) -> None:
     from .c17 import one_list_rule
 
     one_list_rule(repo, rep, "C07.R17")
+    array_size_text_fold_rule(repo, rep, "C07.R18")
